@@ -1023,6 +1023,151 @@ pub fn gen_many_stores(rng: &mut Rng) -> Program {
     p
 }
 
+/// Predicate loops around the waiting primitives, the way they are really used:
+/// `while flag.load() != v { guard = cv.wait(guard) }` and `while flag.load() != v { notify.wait() }`,
+/// with notifiers that publish correctly, publish without the mutex (lost wake-ups are then real
+/// deadlocks), publish in two stages, notify one of two waiters, or notify before publishing.
+pub fn gen_wait_loops(rng: &mut Rng) -> Program {
+    let mut vs = ValueSrc::new();
+    let pal = *rng.pick(&[Palette::RlxOnly, Palette::RelAcq, Palette::All, Palette::All]);
+    let v = vs.constant();
+    let u = vs.constant();
+    let data = vs.constant();
+    let use_cell = rng.chance(1, 3);
+    let mut p = Program { atomics: vec![0, 0], n_cell: if use_cell { 1 } else { 0 }, ..Default::default() };
+    let publish = |rng: &mut Rng| -> Op {
+        if use_cell {
+            Op::CWrite { c: 0, v: data }
+        } else {
+            Op::Store { a: 1, v: data, o: pick_store_ord(rng, pal) }
+        }
+    };
+    let consume = |rng: &mut Rng| -> Op {
+        if use_cell {
+            Op::CRead { c: 0 }
+        } else {
+            Op::Load { a: 1, o: pick_load_ord(rng, pal) }
+        }
+    };
+    let mut threads: Vec<Vec<Op>> = Vec::new();
+    if rng.chance(3, 5) {
+        // ---- condvar
+        p.n_mutex = 1;
+        p.n_condvar = 1;
+        let n_waiters = if rng.chance(1, 3) { 2 } else { 1 };
+        for _ in 0..n_waiters {
+            let mut w = vec![Op::Lock { m: 0 }, Op::CvWaitUntil { c: 0, m: 0, a: 0, o: pick_load_ord(rng, pal), v }];
+            if rng.chance(2, 3) {
+                w.push(consume(rng));
+            }
+            w.push(Op::Unlock { m: 0 });
+            threads.push(w);
+        }
+        let mut n = Vec::new();
+        if rng.chance(2, 3) {
+            n.push(publish(rng));
+        }
+        let two_stage = rng.chance(1, 4);
+        let stages: Vec<u64> = if two_stage { vec![u, v] } else { vec![v] };
+        for (i, val) in stages.iter().enumerate() {
+            let locked = rng.chance(2, 3);
+            let notify_inside = locked && rng.chance(1, 2);
+            let notify = if n_waiters == 2 && rng.chance(2, 3) || rng.chance(1, 3) { Op::CvAll { c: 0 } } else { Op::CvOne { c: 0 } };
+            if locked {
+                n.push(Op::Lock { m: 0 });
+            }
+            n.push(Op::Store { a: 0, v: *val, o: pick_store_ord(rng, pal) });
+            if notify_inside {
+                n.push(notify.clone());
+            }
+            if locked {
+                n.push(Op::Unlock { m: 0 });
+            }
+            if !notify_inside {
+                n.push(notify);
+            }
+            if i == 0 && two_stage && rng.chance(1, 3) {
+                n.push(Op::Yield);
+            }
+        }
+        if n_waiters == 2 && rng.chance(1, 3) {
+            n.push(Op::CvOne { c: 0 });
+        }
+        threads.push(n);
+    } else {
+        // ---- Notify (a single waiting thread)
+        p.n_notify = 1;
+        let mut w = vec![Op::NWaitUntil { n: 0, a: 0, o: pick_load_ord(rng, pal), v }];
+        if rng.chance(2, 3) {
+            w.push(consume(rng));
+        }
+        threads.push(w);
+        let mut n = Vec::new();
+        if rng.chance(2, 3) {
+            n.push(publish(rng));
+        }
+        match rng.below(5) {
+            0 => {
+                // two stages, a notification each
+                n.push(Op::Store { a: 0, v: u, o: pick_store_ord(rng, pal) });
+                n.push(Op::NNotify { n: 0 });
+                n.push(Op::Store { a: 0, v, o: pick_store_ord(rng, pal) });
+                n.push(Op::NNotify { n: 0 });
+            }
+            1 => {
+                // two stores, one notification
+                n.push(Op::Store { a: 0, v: u, o: pick_store_ord(rng, pal) });
+                n.push(Op::Store { a: 0, v, o: pick_store_ord(rng, pal) });
+                n.push(Op::NNotify { n: 0 });
+            }
+            2 => {
+                // notification first
+                n.push(Op::NNotify { n: 0 });
+                n.push(Op::Store { a: 0, v, o: pick_store_ord(rng, pal) });
+                if rng.chance(1, 2) {
+                    n.push(Op::NNotify { n: 0 });
+                }
+            }
+            _ => {
+                n.push(Op::Store { a: 0, v, o: pick_store_ord(rng, pal) });
+                n.push(Op::NNotify { n: 0 });
+                if rng.chance(1, 3) {
+                    n.push(Op::NNotify { n: 0 });
+                }
+            }
+        }
+        threads.push(n);
+        if rng.chance(1, 4) {
+            // a second notifier
+            threads.push(vec![Op::NNotify { n: 0 }]);
+        }
+    }
+    // who is main?
+    let main_role = rng.below(threads.len() + 1);
+    let mut t0: Vec<Op> = Vec::new();
+    let mut others: Vec<Vec<Op>> = Vec::new();
+    let mut main_body = None;
+    for (i, th) in threads.into_iter().enumerate() {
+        if i == main_role {
+            main_body = Some(th);
+        } else {
+            others.push(th);
+        }
+    }
+    for i in 0..others.len() {
+        t0.push(Op::Spawn { t: (i + 1) as u8 });
+    }
+    if let Some(b) = main_body {
+        t0.extend(b);
+    }
+    for i in 0..others.len() {
+        t0.push(Op::Join { t: (i + 1) as u8 });
+    }
+    p.threads = vec![t0];
+    p.threads.extend(others);
+    p
+}
+
 /// Message passing through a channel: the sender writes a cell before each send; the receiver
 /// takes the messages with a mix of `recv` and `try_recv` and reads the cell that belongs to the
 /// message it got (each receive must synchronise with ITS send).
